@@ -337,6 +337,12 @@ def _pdk_one(item):
             m.x = h.Nmos()(d=m.a, g=m.b, s=m.c, b=m.d)
         elif which == "pmos":
             m.x = h.Pmos()(d=m.a, g=m.b, s=m.c, b=m.d)
+        elif which == "mixed":
+            # a generic transistor compiled by model name, next to the same device instantiated directly from the PDK
+            import sky130_hdl21.primitives as sp
+
+            m.x = h.Mos(model="NMOS_1p8V_STD")(d=m.a, g=m.b, s=m.c, b=m.d)
+            m.y = sp.NMOS_1p8V_STD(mod.Sky130MosParams())(d=m.a, g=m.b, s=m.c, b=m.d)
         mod.compile(m)
         pkg = h.to_proto(m)
     except Exception as e:
@@ -449,7 +455,7 @@ def run(ctx):
                 if probs:
                     ctx.violation(dict(corpus="mutants", fault=cls, problem=classify(probs[0])), dict(family=fam, fault=cls, design=d2), probs)
     # (d) PDK-compiled designs
-    for item in [(p, w) for p in ("hdl21.pdk.sample_pdk", "sky130_hdl21", "gf180_hdl21", "asap7_hdl21") for w in ("nmos", "pmos")]:
+    for item in [(p, w) for p in ("hdl21.pdk.sample_pdk", "sky130_hdl21", "gf180_hdl21", "asap7_hdl21") for w in ("nmos", "pmos")] + [("sky130_hdl21", "mixed")]:
         it, status, probs = _pdk_one(item)
         ctx.count(states=1, transitions=3, traces_validated_against_impl=1)
         ctx.fam("pdk_compiled", **{("pkg" if status == "pkg" else "raised"): 1})
